@@ -7,8 +7,8 @@ File content alphabet `Sym`: data files are lists of `byte`s; the backup record 
 is a list of *lexed* JSON characters (one symbol per written character; characters inside a JSON
 string are tagged `s c`, so `s '}'` is not a closing brace).  A byte prefix of the real record
 corresponds to a prefix of the symbol list, because JSON lexing is left-to-right.
-Restrictions (stated, exercised by the generator): file names are ASCII (no `\uXXXX` escapes; `"` and
-`\` are escaped as two symbols), paths are normalised component lists (no `..`, no symlinks).
+File names are arbitrary code points (`json.dump` with `ensure_ascii`: `\uXXXX`, surrogate pairs, `\n`...;
+`"` and `\` as two symbols); paths are normalised component lists (no `..`, no symlinks).
 `parse` is exact on prefixes of rendered records, which is all a crashed `create_backup` can leave.
 No Mathlib imports: linked into the native driver.
 -/
@@ -68,7 +68,26 @@ def splitKey (k : Key) : Path :=
 
 /-! ### The record text (`json.dump(backup, fp, indent=4)`) -/
 
-def escape (ch : Char) : List Sym := if ch = '"' ∨ ch = '\\' then [.s '\\', .s ch] else [.s ch]
+def hexDigit (n : Nat) : Char :=
+  if n < 10 then Char.ofNat (48 + n) else Char.ofNat (87 + n)
+
+/-- `\\uXXXX` for one UTF-16 code unit -/
+def u4 (n : Nat) : List Sym :=
+  [.s '\\', .s 'u', .s (hexDigit (n / 4096 % 16)), .s (hexDigit (n / 256 % 16)), .s (hexDigit (n / 16 % 16)),
+   .s (hexDigit (n % 16))]
+
+/-- `json.encoder.py_encode_basestring_ascii`: everything outside `' '..'~'` is escaped; astral
+characters become a surrogate pair. -/
+def escape (ch : Char) : List Sym :=
+  if ch = '"' ∨ ch = '\\' then [.s '\\', .s ch]
+  else if ' ' ≤ ch ∧ ch ≤ '~' then [.s ch]
+  else if ch = '\n' then [.s '\\', .s 'n']
+  else if ch = '\r' then [.s '\\', .s 'r']
+  else if ch = '\t' then [.s '\\', .s 't']
+  else if ch.toNat = 8 then [.s '\\', .s 'b']
+  else if ch.toNat = 12 then [.s '\\', .s 'f']
+  else if ch.toNat < 65536 then u4 ch.toNat
+  else u4 (55296 + (ch.toNat - 65536) / 1024) ++ u4 (56320 + (ch.toNat - 65536) % 1024)
 def strToks (k : List Char) : List Sym := k.flatMap escape
 
 def entry (ts : List Char) (k : Key) : List Sym :=
@@ -98,10 +117,30 @@ def readStr : List Sym → Option (List Char × List Sym)
   | .s c :: r => match readStr r with | some (k, r') => some (c :: k, r') | none => none
   | _ => none
 
-def unescape : List Char → List Char
-  | '\\' :: c :: r => c :: unescape r
-  | c :: r => c :: unescape r
+def hexVal (ch : Char) : Nat :=
+  if '0' ≤ ch ∧ ch ≤ '9' then ch.toNat - 48
+  else if 'a' ≤ ch ∧ ch ≤ 'f' then ch.toNat - 87
+  else if 'A' ≤ ch ∧ ch ≤ 'F' then ch.toNat - 55 else 0
+
+/-- JSON string body -> UTF-16 code units / code points -/
+def decodeUnits : List Char → List Nat
+  | '\\' :: 'u' :: a :: b :: c :: d :: r =>
+    (hexVal a * 4096 + hexVal b * 256 + hexVal c * 16 + hexVal d) :: decodeUnits r
+  | '\\' :: c :: r =>
+    (if c = 'n' then 10 else if c = 'r' then 13 else if c = 't' then 9 else if c = 'b' then 8
+     else if c = 'f' then 12 else c.toNat) :: decodeUnits r
+  | c :: r => c.toNat :: decodeUnits r
   | [] => []
+
+def combine : List Nat → List Char
+  | hi :: lo :: r =>
+    if 55296 ≤ hi ∧ hi < 56320 ∧ 56320 ≤ lo ∧ lo < 57344
+    then Char.ofNat (65536 + (hi - 55296) * 1024 + (lo - 56320)) :: combine r
+    else Char.ofNat hi :: combine (lo :: r)
+  | [n] => [Char.ofNat n]
+  | [] => []
+
+def unescape (k : List Char) : List Char := combine (decodeUnits k)
 
 def parseEntries : Nat → List Sym → Option (List Key)
   | 0, _ => none
@@ -237,37 +276,99 @@ def selKey (f : Path) : Bool :=
   f.dropLast.all (fun d => d != ['r', 'e', 'm', 'o', 'd', 'e', 'l']) &&
     ((f.getLastD []).map toLower).reverse.take 10 == ['e', 'v', 'e', 'n', 't', 's', '.', 't', 's', 'v'].reverse
 
-/-- restore all, then rewrite every selected file from its backup copy. -/
-def remodelCore (c : Cfg) (T : List Sym → List Sym) (fs : List Path) (s : St) : Except Err St :=
-  match copyMap c id (fun _ => true) fs s with
+/-- `io_util.get_task_from_file`: the BIDS task entity (`task-<name>` up to `_` or `.`) of a file name. -/
+def dropExt (b : Name) : Name :=
+  let r := b.reverse
+  match r.findIdx? (· == '.') with
+  | some i => if (r.drop (i + 1)).any (· != '.') then (r.drop (i + 1)).reverse else b
+  | none => b
+
+def strip (b : Name) : Name := ((b.dropWhile (· == ' ')).reverse.dropWhile (· == ' ')).reverse
+
+def afterTask : List Char → List Char → Option (List Char)      -- lowercased view, original view
+  | [], _ => none
+  | l :: ls, o => if ['t', 'a', 's', 'k', '-'].isPrefixOf (l :: ls) then some (o.drop 5)
+                  else afterTask ls (o.drop 1)
+
+def bidsTask (base : Name) : Name :=
+  let stem := strip (dropExt base)
+  match afterTask (stem.map toLower) stem with
+  | some r => r.takeWhile (fun ch => ch != '_' && ch != '.')
+  | none => []
+
+/-- `parse_tasks`: which selected files a run with `-t tasks` rewrites (`*` first = every file with a task) -/
+def taskOk (tasks : List Name) (f : Path) : Bool :=
+  tasks.isEmpty ||
+    (let t := bidsTask (f.getLastD [])
+     !t.isEmpty && (tasks.head? == some ['*'] || tasks.contains t))
+
+/-- restore the picked files, then rewrite the chosen files from their backup copies. -/
+def remodelCore (c : Cfg) (T : List Sym → List Sym) (pick1 pick2 : Path → Bool) (fs : List Path) (s : St) :
+    Except Err St :=
+  match copyMap c id pick1 fs s with
   | .error e => .error e
-  | .ok s1 => copyMap c T selKey fs s1
+  | .ok s1 => copyMap c T pick2 fs s1
 
 def relTo (root p : Path) : Path := p.drop root.length
 
-/-- `run_remodel.main` (default options, no task names): `handle_backup` restores, then every selected
-data file must have a backup copy (`BadDataFile` otherwise). -/
-def remodel (c : Cfg) (T : List Sym → List Sym) (fs : List Path) (s : St) : Except Err St :=
+/-- which recorded files a run rewrites: selected by name, of a requested BIDS task, and present in the
+data tree `s1` (the state after `handle_backup`'s restore) - `get_file_list` only sees existing files -/
+def rewritten (c : Cfg) (tasks : List Name) (s1 : St) (f : Path) : Bool :=
+  selKey f && taskOk tasks f && isReg s1 (c.dpath f)
+
+/-- `run_remodel.main` (default options, `-t tasks`): `handle_backup` restores the files picked by
+`task_<t>`, then every selected *existing* data file of the requested BIDS tasks (`task-<t>`) is
+rewritten from its backup copy (`BadDataFile` if it has none).  Without `-t` everything is restored
+first, so every recorded selected file exists and is rewritten. -/
+def remodel (c : Cfg) (T : List Sym → List Sym) (fs : List Path) (tasks : List Name) (s : St) : Except Err St :=
   if fs.isEmpty then .error .backupDoesNotExist else
-  match copyMap c id (fun _ => true) fs s with
+  match copyMap c id (picked tasks) fs s with
   | .error e => .error e
   | .ok s1 =>
-    if ((walk s1 c.dataRoot).map (relTo c.dataRoot)).any (fun f => selKey f && !fs.contains f)
+    if ((walk s1 c.dataRoot).map (relTo c.dataRoot)).any (fun f => selKey f && taskOk tasks f && !fs.contains f)
     then .error .badDataFile
-    else copyMap c T selKey fs s1
+    else copyMap c T (rewritten c tasks s1) fs s1
+
+/-! ### Restore and remodel as primitive steps (for crashes inside them) -/
+
+/-- For every picked file with a backup copy: (`os.makedirs(dirname)`;) create; half; rest; close of the data
+file.  Contents are read from `s`: the steps never write below the backup directory. -/
+def copySteps (c : Cfg) (g : List Sym → List Sym) (mk : Bool) (pick : Path → Bool) : List Path → St → List (Step Sym)
+  | [], _ => []
+  | f :: r, s =>
+    if pick f then
+      match get s (c.bpath f) with
+      | some (.reg b) =>
+        (if mk then mkdirsSteps c.dataRoot f.dropLast else []) ++ writeSteps (c.dpath f) (g b) ++ copySteps c g mk pick r s
+      | _ => []
+    else copySteps c g mk pick r s
+
+/-- `restore_backup(name, tasks)` -/
+def restoreSteps (c : Cfg) (fs : List Path) (tasks : List Name) (s : St) : List (Step Sym) :=
+  copySteps c id true (picked tasks) fs s
+
+/-- `run_remodel.main`: the restore, then `df.to_csv(file_path)` for the files of `order` (the order in
+which `get_file_list`/`parse_tasks` deliver them). -/
+def remodelSteps (c : Cfg) (T : List Sym → List Sym) (fs : List Path) (tasks : List Name) (order : List Path)
+    (s : St) : List (Step Sym) :=
+  restoreSteps c fs tasks s ++ copySteps c T false (fun _ => true) order s
 
 inductive Op where
   | modify (p : Path) (b : List Sym)     -- overwrite / create a data file
   | delete (p : Path)                    -- remove a file or a whole directory
   | restore (tasks : List Name)
-  | remodel
+  | remodel (tasks : List Name)
+  | restoreCrash (tasks : List Name) (k : Nat)                        -- a restore interrupted after k steps
+  | remodelCrash (tasks : List Name) (order : List Path) (k : Nat)    -- a remodel run interrupted after k steps
 deriving Repr
 
 def applyOp (c : Cfg) (T : List Sym → List Sym) (fs : List Path) (s : St) : Op → Except Err St
   | .modify p b => .ok (set s p (.reg b))
   | .delete p => .ok (delTree s p)
   | .restore tasks => restore c fs tasks s
-  | .remodel => remodel c T fs s
+  | .remodel tasks => remodel c T fs tasks s
+  | .restoreCrash tasks k => .ok (crashAfter k (restoreSteps c fs tasks s) s)
+  | .remodelCrash tasks order k => .ok (crashAfter k (remodelSteps c T fs tasks order s) s)
 
 def runOps (c : Cfg) (T : List Sym → List Sym) (fs : List Path) : List Op → St → Except Err St
   | [], s => .ok s
@@ -275,11 +376,12 @@ def runOps (c : Cfg) (T : List Sym → List Sym) (fs : List Path) : List Op → 
     | .error e => .error e
     | .ok s' => runOps c T fs r s'
 
-/-- An operation that does not write into the backup directory (restore/remodel never do, given the
-recorded files live outside it). -/
+/-- An operation that does not write into the backup directory (restore/remodel, complete or
+interrupted, never do, given the recorded files live outside it). -/
 def Op.safe (c : Cfg) : Op → Prop
   | .modify p _ => ¬ c.bdir <+: p
   | .delete p => ¬ c.bdir <+: p ∧ ¬ p <+: c.bdir
+  | .remodelCrash _ order _ => ∀ f ∈ order, ¬ c.bdir <+: c.dpath f
   | _ => True
 
 end HedVerif.Backup
